@@ -13,7 +13,12 @@ from . import cpml_api as P
 from . import yee_api as Y
 from .common import f2h, h2f
 
-RULE = ("K: placed scenes (quick: one non-uniform 22x6x5 scene with PML on a random subset of >= 2 faces; thorough: 4 "
+RULE = ("Placed scenes are built through BoundaryConfig(per-face fields) -> boundary_objects_from_config; per face each of "
+        "sigma/kappa/alpha start/end/order is independently absent (None), the documented default written out, or another "
+        "value; the model `coef` and the numpy oracle are fed with the grading the user's input calls for (absent -> "
+        "documented default, default sigma_end from the formula), never with values read back from the placed object, and "
+        "the object's resolved parameters are compared with them. The quick absorption scenario is configured the same way "
+        "with the documented defaults written out. K: placed scenes (quick: one non-uniform 22x6x5 scene with PML on a random subset of >= 2 faces; thorough: 4 "
         "uniform 22x7x6 scenes with PML on all six faces + 4 non-uniform ones), per-face thickness 1..6, default grading "
         "or random sigma/kappa/alpha start/end/order incl. sigma_start=alpha_start=0 (0/0 -> nan_to_num) and kappa != 1, "
         "plus PMLs placed directly with place_on_grid on the long axis with thickness 1..20, both directions, on the "
@@ -54,6 +59,43 @@ def gen_grading(rng, default_p=0.4):
     return g
 
 
+def documented_defaults():
+    from fdtdx import constants
+    return dict(sigma_start=0.0, sigma_order=3.0, kappa_start=1.0, kappa_end=1.0, kappa_order=3.0,
+                alpha_start=0.01 * 2 * math.pi * float(constants.c) / 1.55e-6 * float(constants.eps0), alpha_end=0.0,
+                alpha_order=1.0)
+
+
+def gen_grading_cfg(rng):
+    """what a user writes into BoundaryConfig for one face: each field independently absent (None), the documented
+    default written out, or another value"""
+    dd = documented_defaults()
+    other = dict(sigma_start=[0.05, 2.0], sigma_end=[3e4, 4e5, 1.5e6], sigma_order=[1.0, 2.0, 3.5], kappa_start=[1.3],
+                 kappa_end=[2.0, 5.0], kappa_order=[1.0, 2.0], alpha_start=[0.0, 1e-3, 5.0], alpha_end=[1e-4, 2.0],
+                 alpha_order=[2.0])
+    g = {}
+    for name in P.GRADING_KEYS:
+        r = rng.random()
+        if r < 0.4:
+            continue
+        if r < 0.7 and name in dd:
+            g[name] = dd[name]
+        else:
+            g[name] = rng.choice(other[name])
+    return g
+
+
+def expected_grading(given, thick):
+    """the nine grading parameters a layer must use for what the user wrote (absent -> documented default; the default
+    sigma_end is -(sigma_order+1) ln(1e-6) / (2 eta0 thickness)) — computed here, never read from the placed object"""
+    from fdtdx import constants
+    g = dict(documented_defaults())
+    g.update({k: float(v) for k, v in given.items() if v is not None})
+    if "sigma_end" not in g:
+        g["sigma_end"] = -(g["sigma_order"] + 1.0) * math.log(1e-6) / (2.0 * float(constants.eta0) * thick)
+    return [g[k] for k in P.GRADING_KEYS]
+
+
 def gen_scene(rng, nonuniform):
     shape = [22, 6, 5] if nonuniform else [22, 7, 6]
     spec = {"min_x": rng.randint(1, 6), "max_x": rng.randint(1, 6), "min_y": rng.randint(1, 2), "max_y": rng.randint(1, 3),
@@ -63,15 +105,16 @@ def gen_scene(rng, nonuniform):
         while len(keep) < 2:
             keep.append(rng.choice([k for k in Y.FACES if k not in keep]))
         spec = {k: v for k, v in spec.items() if k in keep}
-    params = {k: gen_grading(rng) for k in spec}
+    # the PML objects are created through BoundaryConfig -> boundary_objects_from_config (per-face fields)
+    params = {k: gen_grading_cfg(rng) for k in spec}
     widths = None
     if nonuniform:
         widths = [[50e-9 * rng.uniform(0.6, 1.6) for _ in range(n)] for n in shape]
-    return dict(shape=shape, spec=spec, params=params, widths=widths, seed=rng.np_seed())
+    return dict(shape=shape, spec=spec, params=params, widths=widths, seed=rng.np_seed(), via_config=True)
 
 
 def scene_of(c):
-    return P.build(c["shape"], {k: ("pml" if k in c["spec"] else "none") for k in Y.FACES}, c["spec"], params=c["params"],
+    return (P.build_cfg if c.get("via_config") else P.build)(c["shape"], {k: ("pml" if k in c["spec"] else "none") for k in Y.FACES}, c["spec"], params=c["params"],
                    widths=c["widths"])
 
 
@@ -131,7 +174,9 @@ def check_layer(ctx, c, sc, p, given, label):
     e_all = edges_of(c, p.axis)
     edges = None if e_all is None else e_all[lo:hi + 1]
     dt, eps0, eta0 = float(sc.config.time_step_duration), float(constants.eps0), float(constants.eta0)
-    g = grading_of(p)
+    thick = (L * 50e-9) if edges is None else float(edges[-1] - edges[0])
+    g = expected_grading(given, thick)
+    resolved = grading_of(p)
     impl = P.coef_arrays(p)
     case = dict(kind="coef", label=label, axis=int(p.axis), plus=plus, L=L, grading=given, nonuniform=edges is not None,
                 scene=c)
@@ -141,28 +186,27 @@ def check_layer(ctx, c, sc, p, given, label):
     rep = ctx.driver.ask(" ".join(line))
     model = np.array([h2f(x) for x in rep.split()]) if rep != "bad-op" else np.zeros(0)
     ctx.expect_close("coef", case, np.concatenate(impl), model, tol=TOL)
+    for name, have, want in zip(P.GRADING_KEYS, resolved, g):
+        ctx.expect_close("resolved " + name, case, [have], [want], tol=TOL, floor=max(abs(want), 1e-300))
     if "sigma_end" not in given:
-        thick = (L * 50e-9) if edges is None else float(edges[-1] - edges[0])
         rep = ctx.driver.ask(" ".join(["sigend", f2h(1e-6), f2h(g[2]), f2h(eta0), f2h(thick)]))
         ctx.expect_close("sigma_end default", case, [float(p.sigma_end)], [h2f(rep)] if rep != "bad-op" else [], tol=TOL,
-                         floor=abs(float(p.sigma_end)))
+                         floor=abs(g[1]))
     nt = (label, int(p.axis), plus, L, tuple(sorted(given.items())), edges is not None)
     ctx.case(sample=None, nontrivial=nt if (given or edges is not None or L != 10) else None, coef_L=L,
              coef_dir=p.direction, coef_axis=int(p.axis), coef_grid="nonuniform" if edges is not None else "uniform",
              coef_grading="default" if not given else "custom", placed=label)
-    d = layer_oracle(impl, plus, L, edges, g, dt, eps0, default_sigma_end="sigma_end" not in given)
+    d = layer_oracle(impl, resolved, plus, L, edges, g, dt, eps0)
     ctx.impl_property_evals += 1
     if d:
         ctx.violation(case, d)
 
 
-def layer_oracle(impl, plus, L, edges, g, dt, eps0, default_sigma_end=False):
-    if default_sigma_end:
-        from fdtdx import constants
-        thick = (L * 50e-9) if edges is None else float(edges[-1] - edges[0])
-        want = -(g[2] + 1.0) * math.log(1e-6) / (2.0 * float(constants.eta0) * thick)
-        if not abs(g[1] - want) <= 1e-9 * abs(want):
-            return f"default sigma_end {g[1]!r} is not -(order+1) ln(1e-6) / (2 eta0 thickness) = {want!r}"
+def layer_oracle(impl, resolved, plus, L, edges, g, dt, eps0):
+    """g = the grading the user's input calls for (expected_grading); resolved = what the placed object reports"""
+    for name, have, want in zip(P.GRADING_KEYS, resolved, g):
+        if not abs(have - want) <= 1e-9 * max(abs(want), 1e-300):
+            return f"layer uses {name} = {have!r} but the configuration calls for {want!r}"
     ref, _ = np_coefs(plus, L, edges, g, dt, eps0)
     for name, a, b in zip(("a_E", "b_E", "inv_kappa_E", "a_H", "b_H", "inv_kappa_H"), impl, ref):
         if a.shape != b.shape or not np.allclose(a, b, rtol=1e-9, atol=1e-12):
@@ -219,8 +263,7 @@ def k_scene(ctx, c, sample=False):
     r = np.random.default_rng(c["seed"])
     pmls = P.pml_list(sc)
     for p in pmls:
-        face = p.name[4:]
-        check_layer(ctx, c, sc, p, c["params"].get(face, {}), "scene")
+        check_layer(ctx, c, sc, p, c["params"].get(p.descriptive_name, {}), "scene")
     for _ in range(ctx.scale(2, 30)):
         q, given = direct_layer(ctx.rng, c, sc, ctx.thorough)
         check_layer(ctx, c, sc, q, given, "direct")
@@ -330,11 +373,20 @@ def scenario_scene(s, pad=0, field_det=False):
         objs.append(det)
         if field_det:
             fd = fdtdx.FieldDetector(name="fd", partial_grid_shape=(win, win, 1), dtype=jnp.float64)
-            cons.append(fd.place_at_center(vol))
+            # z index fixed explicitly: centring a 1-cell object in an even-sized volume hits a half-integer that is
+            # rounded to even (13.5 -> 13 but 37.5 -> 38), which would shift the plane between scenario and reference
+            cons.append(fd.place_at_center(vol, axes=(0, 1)))
+            cons.append(fd.set_grid_coordinates(axes=2, sides="-", coordinates=s["n"] // 2 + pad))
             objs.append(fd)
         return objs, cons
     spec = {k: th for k in Y.FACES}
     params = None
+    if s.get("explicit"):
+        # the documented defaults written out by the user (BoundaryConfig -> boundary_objects_from_config route)
+        dd = documented_defaults()
+        params = {k: {n: dd[n] for n in s["explicit"]} for k in Y.FACES}
+        return P.build_steps((n, n, n), {k: "pml" for k in Y.FACES}, spec, s["steps"], via_config=True, params=params,
+                             extra_fn=fn, gradient=None)
     if s.get("kappa_end"):   # kappa grading on every face: exercises the `(1/kappa - 1) * d + psi` branch of step_cpml
         params = {k: dict(kappa_end=float(s["kappa_end"])) for k in Y.FACES}
     return P.build_steps((n, n, n), {k: "pml" for k in Y.FACES}, spec, s["steps"], params=params, extra_fn=fn, gradient=None)
@@ -383,7 +435,7 @@ def scenario_case(ctx, s, sample=False):
     d = scenario_fails(s)
     ctx.impl_property_evals += 1
     ctx.case(sample=s if sample else None, nontrivial=("scenario", s["src"], s["n"], s["th"], s["pol"], tuple(s["pos"]), s["reference"]),
-             scenario_kind=s["src"], scenario_reference=s["reference"], scenario_th=s["th"], scenario_kappa_end=s.get("kappa_end") or 1.0)
+             scenario_kind=s["src"], scenario_reference=s["reference"], scenario_th=s["th"], scenario_kappa_end=s.get("kappa_end") or 1.0, scenario_explicit=bool(s.get("explicit")))
     if d:
         ctx.violation(s, d)
 
@@ -401,8 +453,13 @@ def run(ctx):
     for _ in range(ctx.scale(4, 20)):
         q, given = direct_layer(ctx.rng, UNIFORM_C, uc, ctx.thorough)
         check_layer(ctx, UNIFORM_C, uc, q, given, "direct-uniform")
-    scenario_case(ctx, gen_scenario(ctx.rng, ctx.thorough), sample=True)
+    # the absorption oracle runs on a scene configured through BoundaryConfig with explicitly written parameters
+    s0 = gen_scenario(ctx.rng, ctx.thorough)
+    s0["explicit"] = ["sigma_start", "alpha_start", "alpha_end", "kappa_start", "kappa_end"] + \
+        [n for n in ("sigma_order", "alpha_order", "kappa_order") if ctx.rng.chance(0.5)]
+    scenario_case(ctx, s0, sample=True)
     if ctx.thorough:
+        scenario_case(ctx, gen_scenario(ctx.rng, True))
         for kind in ("dipole_e", "dipole_m", "plane", "plane"):
             scenario_case(ctx, gen_scenario(ctx.rng, True, kind))
         s = gen_scenario(ctx.rng, True, "dipole_m")
@@ -431,8 +488,11 @@ def property_fails(inp):
     for p in P.pml_list(sc):
         lo, hi = p.grid_slice_tuple[p.axis]
         e_all = edges_of(c, p.axis)
-        d = layer_oracle(P.coef_arrays(p), p.direction == "+", int(p.thickness), None if e_all is None else e_all[lo:hi + 1],
-                         grading_of(p), dt, eps0, default_sigma_end="sigma_end" not in c["params"].get(p.name[4:], {}))
+        edges = None if e_all is None else e_all[lo:hi + 1]
+        L = int(p.thickness)
+        thick = (L * 50e-9) if edges is None else float(edges[-1] - edges[0])
+        d = layer_oracle(P.coef_arrays(p), grading_of(p), p.direction == "+", L, edges,
+                         expected_grading(c["params"].get(p.descriptive_name, {}), thick), dt, eps0)
         if d:
             return f"{p.name}: {d}"
     return None
@@ -452,8 +512,10 @@ def direct_fails(inp):
                                          name="direct", **given)
     q = q.place_on_grid(tuple(box), sc.config, j["jax"].random.PRNGKey(0))
     e_all = edges_of(c, 0)
-    return layer_oracle(P.coef_arrays(q), plus, L, None if e_all is None else e_all[box[0][0]:box[0][1] + 1], grading_of(q),
-                        float(sc.config.time_step_duration), float(constants.eps0), default_sigma_end="sigma_end" not in given)
+    edges = None if e_all is None else e_all[box[0][0]:box[0][1] + 1]
+    thick = (L * 50e-9) if edges is None else float(edges[-1] - edges[0])
+    return layer_oracle(P.coef_arrays(q), grading_of(q), plus, L, edges, expected_grading(given, thick),
+                        float(sc.config.time_step_duration), float(constants.eps0))
 
 
 def search(ctx, hints):
@@ -466,14 +528,25 @@ def search(ctx, hints):
                 ctx.violation(h if keep else dict(kind="scene", scene=h.get("scene", h)), d)
                 return
     rng = ctx.rng.fork()
-    # the property's scenario once with kappa grading (kappa_end = 2: the non-default branch of step_cpml)
-    s = gen_scenario(rng, False, "dipole_e")
-    s["kappa_end"] = 2.0
-    ctx.impl_property_evals += 1
-    d = scenario_fails(s)
-    if d:
-        ctx.violation(s, d)
-        return
+    # cheap first: the coefficient / resolved-parameter oracle on configuration-built scenes (explicit per-face parameters)
+    for i in range(ctx.scale(3, 10)):
+        c = gen_scene(rng, i % 2 == 1)
+        ctx.impl_property_evals += 1
+        d = property_fails(dict(kind="scene", scene=c))
+        if d:
+            ctx.violation(dict(kind="scene", scene=c), d)
+            return
+    # the property's scenario with the documented defaults written out (BoundaryConfig route), then with kappa grading
+    # (kappa_end = 2: the non-default branch of step_cpml)
+    for extra in (dict(explicit=["sigma_start", "alpha_start", "alpha_end", "kappa_start", "kappa_end", "sigma_order"]),
+                  dict(kappa_end=2.0)):
+        s = gen_scenario(rng, False, "dipole_e")
+        s.update(extra)
+        ctx.impl_property_evals += 1
+        d = scenario_fails(s)
+        if d:
+            ctx.violation(s, d)
+            return
     # the property's scenario: residual-energy clause, then the reference-domain clause (reference enlarged by 12 cells
     # per side here to keep the search affordable; baseline 1e-10 .. 3e-8 against the 1e-4 threshold)
     for i in range(ctx.scale(3, 8)):
@@ -483,13 +556,6 @@ def search(ctx, hints):
         d = scenario_fails(s)
         if d:
             ctx.violation(s, d)
-            return
-    for i in range(ctx.scale(3, 10)):
-        c = gen_scene(rng, i % 2 == 1)
-        ctx.impl_property_evals += 1
-        d = property_fails(dict(kind="scene", scene=c))
-        if d:
-            ctx.violation(dict(kind="scene", scene=c), d)
             return
 
 
